@@ -118,7 +118,10 @@ Theorem iter_nodup : chk_C01_nodup e (c_trace c) = true.
 Proof.
   destruct iter_inv as [A _]. unfold chk_C01_nodup. pose proof (tl_disj _ _ _ (a_til e L c A Hfu)) as H.
   rewrite pairwise_disj_app in H.
-  apply andb_true_iff in H. destruct H as [H _]. apply andb_true_iff in H. destruct H as [H _]. exact H.
+  apply andb_true_iff in H. destruct H as [H _]. apply andb_true_iff in H. destruct H as [H _]. rewrite H. cbn [andb].
+  pose proof (tl_within _ _ _ (a_til e L c A Hfu)) as Hw.
+  rewrite iv_within_app in Hw. apply andb_true_iff in Hw. destruct Hw as [Hw _].
+  apply iv_within_mono with (s_cur (c_sh c)); [exact (p_cur _ _ _ _ _ (a_prot e L c A))|exact Hw].
 Qed.
 
 Theorem iter_noloss : clean (c_trace c) = true -> chk_C01_noloss e (c_trace c) = true.
